@@ -288,7 +288,7 @@ class EnvNone(Stream):
         return {'unone': U is None, 'lnone': L is None, 'ulen': None if U is None else len(U), 'llen': None if L is None else len(L)}
 
     def ops(self, case, out):
-        return [proto.op('PEAKS', {}, [case['x']])]
+        return [proto.op('SIFT-PEAKS', {}, [case['x']])]
 
     def compare(self, case, out, results):
         if isinstance(out, ImplError):
